@@ -156,6 +156,11 @@ def documents(draw, max_subnets=4, max_size=3, max_hosts=7, extras=True,
     nsrv = draw(st.integers(1, 3))
     nproc = draw(st.integers(1, 3))
     oss, srvs, procs = OS_POOL[:nos], SRV_POOL[:nsrv], PROC_POOL[:nproc]
+    if _coin(draw, 0.2):
+        # names that contain each other (matching must be by equality, not by substring / prefix)
+        oss = ["windows_server", "windows", "win"][:nos]
+        srvs = ["sftp", "ftp", "ftps"][:nsrv]
+        procs = ["crond", "cron", "anacron"][:nproc]
     if _coin(draw, 0.12):
         # names are arbitrary: the same name may denote a service and a process (or an OS)
         which = draw(st.integers(0, 2))
